@@ -112,6 +112,7 @@ type x04Env struct {
 	mu       sync.Mutex
 	rec      bool
 	teardown bool
+	closed   bool
 	cfg      x04Cfg
 	pqm      *ProviderQueryManager
 	queries  []*x04Query
@@ -355,7 +356,7 @@ func (e *x04Env) obs(s x04Stim, reqs map[int]*x04Req) M {
 	st := M{}
 	for _, k := range e.cfg.Keys {
 		ent := M{"has": false, "n": 0, "sofar": []any{}}
-		if rs, ok := e.pqm.inProgressRequestStatuses[x04Cids[k]]; ok {
+		if rs, ok := e.pqm.inProgressRequestStatuses[x04Cids[k]]; ok && !e.closed {
 			sf := []any{}
 			for _, p := range rs.providersSoFar {
 				sf = append(sf, x04Proj(p.ID))
@@ -470,6 +471,7 @@ func x04ReplayOne(t *testing.T, beh *x04Beh, onFatal func(ok bool, step int, wha
 			case "Tick":
 				time.Sleep(x04Timeout * 6 / 10)
 			case "Close":
+				e.closed = true // the status map is not looked at any more
 				e.pqm.Close()
 			}
 			synctest.Wait()
@@ -586,10 +588,11 @@ func x04Replay(t *testing.T) {
 		case ok:
 			vEmit(M{"i": i, "ok": true})
 		default:
-			nfail++
 			rec := M{"i": i, "ok": false, "step": step, "what": what, "fatal": fatal}
 			if len(devs) > 0 {
 				rec["devs"] = devs
+			} else {
+				nfail++
 			}
 			if nfail <= 40 || len(devs) > 0 {
 				vEmit(rec)
